@@ -81,7 +81,7 @@ def main(args) -> int:
         r = run_one(e, args.tier, args.seed, args.workers, args.runs)
         results.append(r)
         exp = e.get("expect_detected", True)
-        good = (r.get("detected") is True) == exp and "error" not in r
+        good = (exp is None or (r.get("detected") is True) == exp) and "error" not in r
         ok &= good
         print(f"{'ok  ' if good else 'MISS'} {e['name']:55s} {e['property']} detected={r.get('detected')} "
               f"exit={r.get('exit')} {r.get('wall_s')}s {r.get('error', '')}", flush=True)
